@@ -210,6 +210,40 @@ class World:
             out[mname] = {x for x in s if x}
         return out
 
+    def footprint_writers(self, fields, classes=None):
+        """closure scan over the WHOLE repository: every function that stores to (or calls a mutating method on) an attribute whose name is in
+        `fields`, on any object -> {qualname: sorted(list of the fields it touches)}"""
+        MUT = {"append", "extend", "pop", "remove", "clear", "update", "insert", "setdefault", "popitem", "sort", "add", "discard"}
+        out = {}
+        def direct(attr_node):
+            """self.<field> (a field of the object the method belongs to) as opposed to a field of another object reached through self"""
+            return isinstance(attr_node.value, ast.Name) and attr_node.value.id in ("self", "cls")
+        def scan(fn, qual, own=True):
+            hit = set()
+            def note(a):
+                # methods of classes outside `classes` only count when they reach INTO another object (self.x.<field> = ...): their own fields that
+                # merely share a name with a tracked field are not part of the footprint
+                if own or not direct(a): hit.add(a.attr)
+            for n in ast.walk(fn):
+                tgts = []
+                if isinstance(n, ast.Assign): tgts = n.targets
+                elif isinstance(n, (ast.AugAssign, ast.AnnAssign)): tgts = [n.target]
+                elif isinstance(n, ast.Delete): tgts = n.targets
+                for t in tgts:
+                    for tt in ast.walk(t):
+                        if isinstance(tt, ast.Attribute) and isinstance(tt.ctx, (ast.Store, ast.Del)) and tt.attr in fields: note(tt)
+                        if isinstance(tt, ast.Subscript) and isinstance(tt.ctx, (ast.Store, ast.Del)) and isinstance(tt.value, ast.Attribute) and tt.value.attr in fields: note(tt.value)
+                if isinstance(n, ast.Call) and isinstance(n.func, ast.Attribute) and n.func.attr in MUT and isinstance(n.func.value, ast.Attribute) and n.func.value.attr in fields:
+                    note(n.func.value)
+            if hit: out[qual] = sorted(hit)
+        for cname, ci in self.classes.items():
+            if "." in cname: continue
+            own = classes is None or any(self.is_subclass(cname, c) for c in classes)
+            for mname, fn in ci.methods.items(): scan(fn, f"{cname}.{mname}", own)
+        for q, (fn, mod) in self.functions.items():
+            if "." in q: scan(fn, q, False)
+        return out
+
     def _attr_path(self, n):
         parts = []
         while isinstance(n, ast.Attribute):
